@@ -308,6 +308,7 @@ func runC12(r *rt.Run) {
 	r.Bounds["outers_x_16_position_inners"] = []int{len(bo), len(bi)}
 	cbo, cbi := conv(bo), conv(bi)
 	run(cbo, cbi, false)
+	c12IndexedZigzags(r)
 	// sides that carry extra collinear vertices: curated exteriors with every
 	// side cut into pieces of two units x lines (and rectangles on axis-aligned
 	// sides) lying on a side with their ends strictly inside pieces
@@ -377,7 +378,76 @@ func splitSides(ring []exact.P) (*shp, []*shp) {
 	return mkShp(&exact.Shape{Kind: exact.KPoly, Ext: lat.Close(dense)}, nil), partners
 }
 
+// c12IndexedZigzags: lines of 2^8 +- 2 (thorough: 2^16 +- 2) segments that all
+// cross the midline of their rectangle, followed by a short tail in a corner,
+// under the default options, a forced quadtree and a forced r-tree: the same
+// line written in the opposite direction numbers its segments differently and
+// must answer the same.
+func c12ZigzagEval(n int, cfgName string, pi int) (bool, string, string) {
+	ze := rootZigzag(n)
+	last := ze.Line[len(ze.Line)-1]
+	side := int64(1) // the tail stays on the side of the midline where the zigzag ends
+	if last.Y < 0 {
+		side = -1
+	}
+	for k := int64(1); k <= 44; k++ {
+		ze.Line = append(ze.Line, exact.P{X: last.X + 2*k, Y: side * (6 + k%2)})
+	}
+	rev := &exact.Shape{Kind: exact.KLine, Line: reverse(ze.Line)}
+	var partners []*exact.Shape
+	for _, k := range []int{0, 1, 100, 255, 256, n / 2, n - 1, n, n + 20} {
+		v := ze.Line[k]
+		partners = append(partners, &exact.Shape{Kind: exact.KPoint, Pt: v}, &exact.Shape{Kind: exact.KPoint, Pt: exact.P{X: v.X + 1, Y: (v.Y + ze.Line[k+1].Y) / 2}},
+			&exact.Shape{Kind: exact.KLine, Line: []exact.P{v, ze.Line[k+1]}},
+			&exact.Shape{Kind: exact.KLine, Line: []exact.P{{X: v.X - 1, Y: v.Y}, {X: v.X + 1, Y: v.Y}}})
+	}
+	partners = append(partners, &exact.Shape{Kind: exact.KLine, Line: []exact.P{{X: -2, Y: 0}, {X: int64(2*n + 2), Y: 0}}})
+	if pi < 0 || pi >= len(partners) {
+		return false, "", ""
+	}
+	var o *geometry.IndexOptions
+	for _, cf := range rootZigzagCfgs {
+		if cf.name == cfgName {
+			o = cf.o
+		}
+	}
+	a, b, p := geomOf(ze, ident, o), geomOf(rev, ident, o), geomOf(partners[pi], ident, idxNone)
+	fw := [4]bool{libContains(a, p), libContains(p, a), libIntersects(a, p), libIntersects(p, a)}
+	bw := [4]bool{libContains(b, p), libContains(p, b), libIntersects(b, p), libIntersects(p, b)}
+	return fw != bw, fmt.Sprint(fw), fmt.Sprint(bw)
+}
+
+func c12IndexedZigzags(r *rt.Run) {
+	sizes := []int{254, 255, 256, 257, 258}
+	if r.Thorough() {
+		sizes = append(sizes, 65534, 65535, 65536, 65537, 65538)
+	}
+	r.Bounds["indexed_zigzag_segments"] = sizes
+	r.ParFor(len(sizes)*len(rootZigzagCfgs), func(i int, w *rt.Worker) {
+		n, cf := sizes[i/len(rootZigzagCfgs)], rootZigzagCfgs[i%len(rootZigzagCfgs)]
+		w.States += 2
+		w.Trans += int64(2 * n)
+		for pi := 0; pi < 37; pi++ {
+			w.Evals += 8
+			w.Nontriv++
+			if bad, exp, got := c12ZigzagEval(n, cf.name, pi); bad {
+				pi := pi
+				w.Fail("direction-dependence-indexed", func() (rt.Case, string, string) {
+					return rt.Case{Kind: "zigzag12", Op: "reversed", Nums: []float64{float64(n), float64(pi)}, Cfg: cf.name}, exp, got
+				})
+			}
+		}
+	})
+}
+
 func evalC12(c *rt.Case) (bool, string, string, error) {
+	if c.Kind == "zigzag12" {
+		if len(c.Nums) != 2 || c.Nums[0] < 2 || c.Nums[0] > 1<<20 {
+			return false, "", "", fmt.Errorf("malformed case")
+		}
+		bad, exp, got := c12ZigzagEval(int(c.Nums[0]), c.Cfg, int(c.Nums[1]))
+		return bad, exp, got, nil
+	}
 	if c.Kind == "shared-ring" {
 		return evalSharedRing(c)
 	}
